@@ -5,6 +5,7 @@ import TracklibVerif.Lemmas.CinTabWorld
 import TracklibVerif.Lemmas.CinTabGeom
 import TracklibVerif.Lemmas.CinCoords
 import TracklibVerif.Lemmas.CinTabMore
+import TracklibVerif.Lemmas.CinTabZone
 import Mathlib.Analysis.Real.Sqrt
 /-! # C17 — curvilinear abscissa and speed features match their geometric definitions
 
@@ -358,6 +359,27 @@ operation on features): it rewrites no stamp, whatever zones the stamps of the t
 theorem speed_method_is_function {V : Type} [AbsTime V] (g : GOps V) (k : Nat) (w : World V) :
     stepW g (.speedMethod k) w = stepW g (.speed k) w := rfl
 
+/-- **No feature operation reads the zone of a stamp.** For every operation on features (`computeAbsCurv`,
+`estimate_speed` as a function and as a method, `addAnalyticalFeature(speed | ds)`, `operate`, `length`,
+`computeCurvAbsBetweenTwoPoints`, reads, `isSorted`, `duration`, `getT`, …), every world and every rewriting `f` of the
+zone fields of the stamps: on the rewritten world the operation returns the same value (or raises the same exception) and
+ends in the rewritten final world. So "the time elapsed between" two fixes that `speed` divides by is a function of the
+seven calendar fields of their stamps (the difference of the clock readings), whatever zones the stamps carry. -/
+theorem zone_not_read {V : Type} [AbsTime V] (g : GOps V) (op : WOp V) (hop : op.onFeatures = true) (f : Int → Int) (w : World V) :
+    stepW g op (w.zmap f) = ((stepW g op w).1, (stepW g op w).2.zmap f) :=
+  stepW_blind g op hop f w
+
+/-- Corollary: two worlds that differ in the zone fields only (they agree once every zone is set to 0) give the same
+result of every operation on features, and final worlds that again differ in the zones only. -/
+theorem same_result_whatever_zones {V : Type} [AbsTime V] (g : GOps V) (op : WOp V) (hop : op.onFeatures = true) (w w' : World V)
+    (h : w.zmap (fun _ => 0) = w'.zmap (fun _ => 0)) :
+    (stepW g op w).1 = (stepW g op w').1 ∧ (stepW g op w).2.zmap (fun _ => 0) = (stepW g op w').2.zmap (fun _ => 0) := by
+  have e1 := zone_not_read g op hop (fun _ => 0) w
+  have e2 := zone_not_read g op hop (fun _ => 0) w'
+  rw [h] at e1
+  rw [e1] at e2
+  exact ⟨(Prod.mk.inj e2).1, (Prod.mk.inj e2).2⟩
+
 end representations
 
 section otherEntry
@@ -663,6 +685,8 @@ like every other field of every stamp — are what they were -/
 example : (match (stepW demoG (.speedMethod 0) demoW).1 with | .ok (.col l) => l | _ => [])
     = [some (5 / 2), some (5 / 2), some (5 / 3), some (5 / 3)] := by decide +kernel
 example : (stepW demoG (.speedMethod 0) demoW).2.heap.map (·.zone) = [0, 0, 2, 2] := by decide +kernel
+/-- `demoW` is a non-trivial instance of `zone_not_read` / `same_result_whatever_zones`: its zones are not all 0 -/
+example : (demoW.zmap (fun _ => 0)).heap.map (·.zone) = [0, 0, 0, 0] ∧ demoW.heap.map (·.zone) ≠ [0, 0, 0, 0] := by decide +kernel
 /-- `track.setTimeZone(1)` on the section (track 1) writes the zone of the two shared objects and nothing else; the speeds
 computed afterwards are the same -/
 example : (stepW demoG (.setZone 1 1) demoW).2.heap.map (·.zone) = [0, 1, 1, 2] := by decide +kernel
